@@ -22,7 +22,14 @@ RULE = ("metafiles: every creator of the tool (TorrentFile, TorrentFile align, T
         "(tracker set as list / as string / removed, url-list set / removed, info field edited); reference-encoded variants of them and "
         "metafiles of the reference encoder and hand-built dictionaries with arbitrary extra keys (non-UTF-8 keys, keys named like magnet "
         "parameters, decoy 'info' text before the info dictionary), cycling announce only / announce-list only / both / neither x url-list "
-        "list / string / absent, multi-tier lists, names with '/' and names / URLs that are not UTF-8.  Every metafile is asked for version "
+        "list / string / absent, multi-tier lists, names with '/' and names / URLs that are not UTF-8.  Metafiles AT SCALE (64 KiB .. 1 MiB; "
+        "the rest stays below a few KiB): the tool's creators on sparse single files of 4200 .. 16500 pieces of 16 KiB (v1 info dictionaries "
+        "above 128 / 256 KiB, v2 / hybrid piece layers above 256 KiB) with trackers and web seeds, those files edited by edit_torrent and "
+        "reference-encoded variants of them; hand-built dictionaries of each version ONE component of which is scaled up (pieces, files "
+        "list, file tree, piece layers, announce-list or url-list of thousands of entries) and padded so that the info dictionary -- or the "
+        "whole metafile -- has exactly 2^k - 1, 2^k and 2^k + 1 bytes for 2^k = 64 KiB .. 256 KiB (quick; one at 1 MiB) and up to 1 MiB, "
+        "3 * 2^k and random offsets (thorough), always with announce, a multi-tier announce-list and url-list; metafiles above "
+        "600000 bytes are judged end to end only.  Every metafile is asked for version "
         "0, 1, 2 and 3 through commands.magnet; a subset also through commands.get_magnet, cli.execute and a fresh `python -m torrentfile "
         "magnet` process.  A case is distinct by (SHA-1 of the metafile bytes, version, route).  Model tie: returned string = extracted "
         "Model/Magnet.v on the file bytes; quote_plus / unquote_plus of urllib = extracted Model/Uri.v on all 256 bytes, all '%XY' triples, "
@@ -205,7 +212,7 @@ def expected_of(raw):
             "btih": b"urn:btih:" + hashlib.sha1(span_bytes).hexdigest().encode(),
             "btmh": b"urn:btmh:1220" + hashlib.sha256(span_bytes).hexdigest().encode(),
             "name": info[b"name"], "tr": tr, "ws": list(ws), "tshape": tshape, "wshape": wshape,
-            "multi_tier": len(meta.get(b"announce-list", [])) > 1,
+            "multi_tier": len(meta.get(b"announce-list", [])) > 1, "info_len": span[1] - span[0], "has_layers": b"piece layers" in meta,
             "extra": sorted(set(meta) - {b"info", b"announce", b"announce-list", b"url-list", b"piece layers"})}
 
 
@@ -365,7 +372,52 @@ def shrink(raw, v, route, kind, tmp, budget=800):
             return False
         return bool(probs) and any(p[0] == kind for p in probs)
 
+    def cuts(n):
+        """how many units to drop from a component of n units: half, a quarter, ... one (the first cut that keeps the failure wins)"""
+        out, k = [], n // 2
+        while k >= 1:
+            out.append(k)
+            k //= 2
+        return out
+
+    def big_cuts(meta):
+        """metafiles at scale: trim the large components first (a failure that needs the size stops just above its threshold)"""
+        info = meta[b"info"]
+        for holder, key, unit in ((info, b"pieces", 20),) + tuple((meta.get(b"piece layers") or {}, r, 32)
+                                                                   for r in (meta.get(b"piece layers") or {})):
+            s = holder.get(key)
+            if isinstance(s, bytes) and len(s) >= 200 * unit:
+                for k in cuts(len(s) // unit):
+                    m = copy.deepcopy(meta)
+                    (m[b"info"] if holder is info else m[b"piece layers"])[key] = s[:len(s) - k * unit]
+                    yield m
+        for holder, key in ((info, b"files"), (meta, b"announce-list"), (meta, b"url-list")):
+            lst = holder.get(key)
+            if isinstance(lst, list) and len(lst) >= 200:
+                for k in cuts(len(lst)):
+                    m = copy.deepcopy(meta)
+                    (m[b"info"] if holder is info else m)[key] = lst[:len(lst) - k]
+                    yield m
+        tree = info.get(b"file tree")
+        if isinstance(tree, dict):
+            for d, sub in tree.items():
+                if isinstance(sub, dict) and len(sub) >= 100:
+                    names = sorted(sub)
+                    for k in cuts(len(names)):
+                        m = copy.deepcopy(meta)
+                        m[b"info"][b"file tree"][d] = {x: sub[x] for x in names[:len(names) - k]}
+                        yield m
+        for holder, key in ((info, b"x-pad"), (meta, b"comment"), (meta, b"zz-pad"), (meta, b"created by")):
+            s = holder.get(key)
+            if isinstance(s, bytes) and len(s) >= 200:
+                for k in cuts(len(s)):
+                    m = copy.deepcopy(meta)
+                    (m[b"info"] if holder is info else m)[key] = s[:len(s) - k]
+                    yield m
+
     def candidates(meta):
+        if len(cur) >= BIG // 2:
+            yield from big_cuts(meta)
         for k in list(meta):
             if k != b"info":
                 m = dict(meta)
@@ -533,9 +585,231 @@ def metafiles(ctx, g, tmp):
             base = oracle.bdecode_strict(oracle.ref_metafile(g.text(lo=1, hi=3), files[:1] if single else files, PL, ver, single=single))
             origin = "reference encoder"
         yield f"{origin} v{ver} #{i}", origin, variant(base, g)
+    # metafiles at scale (see above): 4-tuples, the last element lists the classes the construction aimed at
+    yield from big_created(ctx, g, tmp)
+    yield from big_synthetic(ctx, g)
 
 
-REQUIRED = [f"{k} x version {v}" for k in ("v1", "v2", "hybrid") for v in range(4)] + TSHAPES + WSHAPES + \
+# ------------------------------------------------------------------------------------------ metafiles at scale
+# Everything above stays below a few KiB.  A magnet is computed from the BYTES of the metafile, so code that digests the info
+# dictionary block by block, or that treats "large" metafiles (long piece strings, piece layers, thousands of files / trackers /
+# web seeds) on another path, is exercised only by metafiles of that size.  The stream below produces them in two ways:
+# (a) the tool's creators on sparse single files of several thousand 16 KiB pieces (created here), the same files edited by
+# edit_torrent (edited here) and reference-encoded variants of them; (b) dictionaries written down by hand and encoded by the
+# reference encoder, ONE component of which is scaled up (pieces / files list / file tree / piece layers / announce-list /
+# url-list) and then padded so that the size of the info dictionary, or of the whole metafile, lands exactly on, one byte below
+# and one byte above a power-of-two threshold (64 KiB .. 1 MiB; thorough also 3 * 2^k) -- always WITH trackers and web seeds,
+# so that every parameter of the URI has something to lose.  They are judged like every other metafile (urllib + hashlib over
+# the raw info span).
+BIG = 1 << 16                      # from here on a metafile counts as "at scale"
+MODEL_BOUND = 600000               # extracted model: bytes per case (notes/HARNESS_GUIDE.md)
+THRESHOLDS = ([1 << 16, 1 << 17, 1 << 18], [3 << 16, 1 << 19, 3 << 17, 1 << 20])
+BIG_COMPONENTS = {1: ["pieces", "files", "url-list", "announce-list"],
+                  2: ["piece layers", "file tree", "announce-list", "url-list"],
+                  3: ["piece layers", "pieces", "file tree", "files", "url-list", "announce-list"]}
+
+
+def big_dict(g, ver, comp, n):
+    """a dictionary of version ver whose component comp has n units (20-byte hashes / 32-byte hashes / files / URLs); every other
+       component small; announce + multi-tier announce-list + url-list always present"""
+    rng = g.rng
+    info = {b"name": g.text(lo=1, hi=3).encode(), b"piece length": PL}
+    top = {}
+    nfiles = n if comp in ("files", "file tree") else 2
+    names = [(b"d%d" % (i % 7), b"f%05d" % i) for i in range(nfiles)]
+    if ver in (1, 3):
+        if comp == "files" or (ver == 3 and comp == "file tree") or rng.random() < 0.5:
+            info[b"files"] = [{b"length": 1 + i % 5, b"path": [d, f]} for i, (d, f) in enumerate(names)]
+        else:
+            info[b"length"] = PL * (n if comp == "pieces" else 3) - 5
+        info[b"pieces"] = rng.randbytes(20 * (n if comp == "pieces" else 3))
+    if ver in (2, 3):
+        info[b"meta version"] = 2
+        nroots = 1 + (n > 40) + (n > 400) if comp == "piece layers" else 1
+        roots = [rng.randbytes(32) for _ in range(nroots)]
+        tree = {}
+        for i, (d, f) in enumerate(names):
+            leaf = {b"length": PL * 3 if i < nroots else 1 + i % 5, b"pieces root": roots[i] if i < nroots else rng.randbytes(32)}
+            tree.setdefault(d, {})[f] = {b"": leaf}
+        info[b"file tree"] = tree
+        share = (n if comp == "piece layers" else 3)
+        layers, left = {}, share
+        for i, r in enumerate(roots):
+            k = left if i == nroots - 1 else max(2, left // 3)
+            layers[r] = rng.randbytes(32 * k)
+            left -= k
+        top[b"piece layers"] = layers
+    urls = [g.url().encode() for _ in range(n if comp == "announce-list" else 4)]
+    top[b"announce"] = urls[0] if rng.random() < 0.7 else g.url().encode()
+    if len(urls) < 50:
+        top[b"announce-list"] = [t for t in tiers(rng, urls) if t]
+    else:
+        top[b"announce-list"], i = [], 0
+        while i < len(urls):                       # tiers of 1, 2, 3, 4, 1, ... URLs
+            k = 1 + len(top[b"announce-list"]) % 4
+            top[b"announce-list"].append(urls[i:i + k])
+            i += k
+    seeds = [g.url().encode() for _ in range(n if comp == "url-list" else 2)]
+    top[b"url-list"] = seeds
+    top[b"info"] = info
+    return top
+
+
+def pad_to(holder, key, need):
+    """add key -> b'p' * L (and, where no L fits because of the digits of L, a second tiny key) to the dictionary so that its
+       encoding grows by exactly `need` bytes; False when impossible"""
+    head = len(b"%d:" % len(key)) + len(key)
+    key2 = key + b"2"
+    head2 = len(b"%d:" % len(key2)) + len(key2) + 2          # key2 -> b""
+    for extra in (0, head2, head2 + 1):
+        for digits in range(1, 9):
+            length = need - extra - head - digits - 1
+            if length >= 0 and len(str(length)) == digits:
+                holder[key] = b"p" * length
+                if extra:
+                    holder[key2] = b"p" * (extra - head2)
+                return True
+    return False
+
+
+def sized(g, ver, comp, what, target):
+    """reference-encoded big_dict whose info dictionary (what = 'info') or whole encoding (what = 'metafile') has EXACTLY `target`
+       bytes: the component is scaled to just below the target and a padding string supplies the rest (when the component lies
+       outside the measured dictionary -- trackers or piece layers for the info dictionary -- it gets 1500 units and the padding
+       supplies everything); None when the construction does not converge (the caller notes it)"""
+    def measure(top):
+        return len(oracle.bencode(top[b"info"] if what == "info" else top))
+    state = g.rng.getstate()
+    shape = (g.n, g.shape)
+
+    def build(n):
+        g.rng.setstate(state)              # the same random stream for every trial: only n differs
+        g.n, g.shape = shape
+        return big_dict(g, ver, comp, n)
+    a, b = measure(build(8)), measure(build(72))
+    flat = b - a < 64
+    unit = max(1.0, (b - a) / 64.0)
+    n = 1500 if flat else max(4, int((target - a) / unit) + 8 - 2)
+    for _ in range(60):
+        top = build(n)
+        need = target - measure(top)
+        if need >= 8:
+            holder, key = (top[b"info"], b"x-pad") if what == "info" else (top, g.rng.choice([b"comment", b"zz-pad", b"created by"]))
+            if pad_to(holder, key, need) and measure(top) == target:
+                return oracle.bencode(top)
+        if flat:
+            return None
+        n -= 1 if need > -3 * unit else max(1, int(-need / unit))
+        if n < 1:
+            return None
+    return None
+
+
+def big_synthetic(ctx, g):
+    """(label, origin, raw, classes): sizes on / next to the thresholds, components and versions in a fixed rotation"""
+    quick = ctx.tier == "quick"
+    ths = THRESHOLDS[0] + ([] if quick else THRESHOLDS[1])
+    deltas = [-1, 0, 1] if quick else [-1, 0, 1, -16, 16, None]
+    combos = [(th, what, delta) for th in ths for what in ("info", "metafile") for delta in deltas]
+    if quick:
+        combos.append((1 << 20, "info", 0))
+    used = {1: 0, 2: 0, 3: 0}
+    for j, (th, what, delta) in enumerate(combos):
+        for ver in (((1, 3), (2, 1), (3, 2))[j % 3] if quick else (1, 2, 3)):
+            comps = BIG_COMPONENTS[ver]
+            k = used[ver]
+            used[ver] += 1
+            comp = comps[(k + k // len(comps)) % len(comps)]      # every component in turn, shifted by one after each round
+            d = g.rng.randrange(-3000, 3000) if delta is None else delta
+            raw = sized(g, ver, comp, what, th + d)
+            if raw is None:
+                ctx.notes.append(f"scale: no {what} of {th + d} bytes with a big {comp} (v{ver}) could be constructed")
+                continue
+            yield (f"scale: hand-built v{ver}, big {comp}, {what} of {th}{d:+d} bytes", "hand-built dictionary", raw,
+                   ["scale: big " + comp])
+
+
+def big_created(ctx, g, tmp):
+    """(label, origin, raw, classes): the tool's creators on sparse single files of thousands of pieces; edited; reference variants"""
+    from torrentfile.edit import edit_torrent
+    quick = ctx.tier == "quick"
+    rng = g.rng
+    # pieces: v1 info >= 128 KiB needs > 6553 pieces, >= 256 KiB > 13107; 32-byte layer hashes > 256 KiB need > 8192 pieces
+    plan = [("v1", 6600 + rng.randrange(500)), (rng.choice(["hybrid-asm", "hybrid-class"]), 8300 + rng.randrange(600)),
+            (rng.choice(["v2-asm", "v2-class"]), 8300 + rng.randrange(600))]
+    if not quick:
+        plan += [("v1", 13200 + rng.randrange(500)), ("v1-align", 6600), ("hybrid-class", 13200 + rng.randrange(500)),
+                 ("hybrid-asm", 4200), ("v2-class", 16500), ("v2-asm", 4200)]
+    work = os.path.join(tmp, "bigedit.torrent")
+    for bi, (kind, npieces) in enumerate(plan):
+        name = g.text(disk=True, lo=2, hi=4)[:40]
+        path = os.path.join(tmp, f"big{bi}", name)
+        os.makedirs(os.path.dirname(path))
+        with open(path, "wb") as fd:
+            fd.truncate(npieces * PL - rng.randrange(PL))        # a hole: nothing large is written
+            fd.seek(rng.randrange(PL))
+            fd.write(rng.randbytes(64))
+        opts = {"announce": g.urls(2, 3), "url_list": g.urls(2, 3)}
+        if rng.random() < 0.5:
+            opts["httpseeds"] = g.urls(1, 2)
+        if rng.random() < 0.5:
+            opts["comment"] = g.text()
+        label = f"scale: {kind} on a sparse file of {npieces} pieces"
+        try:
+            raw = trees.create(kind, path, os.path.join(tmp, "bigcreated.torrent"), PL, **opts)
+        except Exception as e:  # noqa
+            ctx.broken.append(f"creator {kind} failed on a sparse file of {npieces} pieces: {type(e).__name__}: {e}")
+            continue
+        finally:
+            os.remove(path)
+        yield label, f"created by {kind}", raw, ["scale: created by the tool"]
+        reqs = edit_requests(g)
+        for ei in ([bi % len(reqs), (bi + 2) % len(reqs)] if quick else range(len(reqs))):
+            what, req = reqs[ei]
+            with open(work, "wb") as fd:
+                fd.write(raw)
+            try:
+                trees.quiet(edit_torrent, work, dict(req))
+            except Exception as e:  # noqa
+                ctx.broken.append(f"edit_torrent failed ({what}) on {label}: {type(e).__name__}: {e}")
+                continue
+            yield f"{label} edited: {what}", "edited", oracle.read(work), ["scale: edited by the tool"]
+        meta = oracle.bdecode_strict(raw)
+        for vi in range(2 if quick else 8):
+            yield f"{label} reference variant {vi}", "reference variant of a created metafile", variant(meta, g), []
+
+
+def scale_classes(raw, exp):
+    """boundary classes of a metafile at scale, read off its bytes"""
+    def bucket(n):
+        return "64..128 KiB" if n < 1 << 17 else ("128..256 KiB" if n < 1 << 18 else ("256 KiB..1 MiB" if n < 1 << 20 else ">= 1 MiB"))
+    cl = []
+    for what, n in (("info dictionary", exp["info_len"]), ("metafile", len(raw))):
+        if n >= BIG:
+            cl.append(f"scale: {what} {bucket(n)}")
+            for r, txt in ((0, "exactly a multiple of 64 KiB"), (1, "one byte above a multiple of 64 KiB"),
+                           (BIG - 1, "one byte below a multiple of 64 KiB")):
+                if n % BIG == r:
+                    cl.append(f"scale: {what} {txt}")
+    if len(raw) > 1 << 18 and exp["has_layers"] and exp["tr"] and exp["ws"]:
+        cl.append("scale: metafile > 256 KiB with piece layers, trackers and web seeds")
+    if exp["info_len"] >= 1 << 17 and exp["tr"] and exp["ws"]:
+        cl.append("scale: info dictionary >= 128 KiB with trackers and web seeds")
+    if len(exp["tr"]) >= 1000 or len(exp["ws"]) >= 1000:
+        cl.append("scale: >= 1000 trackers or web seeds")
+    return cl
+
+
+REQUIRED_SCALE = ["scale: info dictionary 128..256 KiB", "scale: info dictionary 256 KiB..1 MiB", "scale: info dictionary >= 1 MiB",
+                  "scale: metafile 256 KiB..1 MiB", "scale: info dictionary exactly a multiple of 64 KiB",
+                  "scale: info dictionary one byte above a multiple of 64 KiB", "scale: info dictionary one byte below a multiple of 64 KiB",
+                  "scale: metafile exactly a multiple of 64 KiB", "scale: metafile one byte above a multiple of 64 KiB",
+                  "scale: metafile > 256 KiB with piece layers, trackers and web seeds",
+                  "scale: info dictionary >= 128 KiB with trackers and web seeds", "scale: >= 1000 trackers or web seeds",
+                  "scale: created by the tool", "scale: edited by the tool"] + \
+    ["scale: big " + c for c in BIG_COMPONENTS[3]]
+
+REQUIRED = [f"{k} x version {v}" for k in ("v1", "v2", "hybrid") for v in range(4)] + TSHAPES + WSHAPES + REQUIRED_SCALE + \
     [f"{w} has {c!r}" for w in ("name", "url") for c in RESERVED] + \
     ["name non-ASCII", "url non-ASCII", "name not UTF-8", "url not UTF-8", "multi-tier announce-list", "foreign extra keys",
      "origin: created", "origin: edited", "origin: reference variant of a created metafile", "origin: reference encoder",
@@ -618,7 +892,9 @@ def run(ctx, model_ok):
     with core.Scratch("vc11_") as tmp:
         os.environ["HOME"] = tmp
         path = os.path.join(tmp, "m.torrent")
-        for idx, (label, origin, raw) in enumerate(metafiles(ctx, g, tmp)):
+        n_big = n_sub_big = 0
+        for idx, item in enumerate(metafiles(ctx, g, tmp)):
+            label, origin, raw = item[:3]
             try:
                 exp = expected_of(raw)
             except Exception as e:  # noqa
@@ -627,20 +903,30 @@ def run(ctx, model_ok):
             with open(path, "wb") as fd:
                 fd.write(raw)
             digest = hashlib.sha1(raw).hexdigest()
+            hexraw = raw.hex()
+            big = len(raw) >= BIG
+            n_big += big
             base_classes = [exp["tshape"], exp["wshape"], "origin: " + ("created" if origin.startswith("created by") else origin)] + \
                 string_classes(exp) + (["multi-tier announce-list"] if exp["multi_tier"] else []) + \
                 (["foreign extra keys"] if any(k not in (b"created by", b"creation date", b"httpseeds") for k in exp["extra"]) else []) + \
-                ([origin] if origin.startswith("created by") else [])
+                ([origin] if origin.startswith("created by") else []) + \
+                (list(item[3]) + scale_classes(raw, exp) if len(item) > 3 or big else [])
+            in_model = len(raw) <= MODEL_BOUND
+            if not in_model:
+                base_classes.append("scale: above the byte bound of the extracted model, judged end to end only")
             lib_uri = {}
             for v in range(4):
                 routes = ["lib"]
-                if idx % (5 if quick else 2) == 0:
+                if idx % (5 if quick else 2) == 0 or (big and n_big % 2 == 0):
                     routes += ["get_magnet", "cli"] + (["cli-default"] if v == 0 else [])
                 if idx % (40 if quick else 60) == 7 and v in (0, 3) and n_sub < (4 if quick else 200):
                     routes += ["subprocess"] + (["subprocess-default"] if v == 0 else [])
                     n_sub += 1
+                elif big and n_big % (12 if quick else 10) == 2 and v in (0, 3) and n_sub_big < (4 if quick else 40):
+                    routes += ["subprocess"] + (["subprocess-default"] if v == 0 else [])
+                    n_sub_big += 1
                 for route in routes:
-                    desc = {"metafile_hex": raw.hex(), "version": v, "route": route, "label": label, "origin": origin}
+                    desc = {"metafile_hex": hexraw, "version": v, "route": route, "label": label, "origin": origin}
                     inside = expected_xts(exp, v) is not None
                     ctx.case(key=(digest, v, route), nontrivial=True,
                              classes=base_classes + [f"{exp['kind']} x version {v}", "route " + route.replace("subprocess-default", "subprocess")]
@@ -649,14 +935,15 @@ def run(ctx, model_ok):
                     try:
                         uri, shown = run_route(route, path, v, tmp)
                     except Exception as e:  # noqa
-                        if route == "lib":
-                            model_cases.append((raw.hex(), v, None, desc))
+                        if route == "lib" and in_model:
+                            model_cases.append((hexraw, v, None, desc))
                         if inside:
                             ctx.fail("magnet-raised", desc, "a magnet URI", f"{type(e).__name__}: {e}")
                         continue
                     if route == "lib":
                         lib_uri[v] = uri
-                        model_cases.append((raw.hex(), v, uri, desc))
+                        if in_model:
+                            model_cases.append((hexraw, v, uri, desc))
                         if len(ctx.samples) < 3 and idx % 17 == 3 and v == 0:
                             ctx.samples.append({"metafile": label, "kind": exp["kind"], "version": v, "uri": uri})
                     elif lib_uri.get(0 if route.endswith("default") else v) != uri:
@@ -676,7 +963,7 @@ def run(ctx, model_ok):
                         small = raw
                         if kind not in shrunk_kinds and route in ("lib", "get_magnet", "cli"):
                             shrunk_kinds.add(kind)
-                            small = shrink(raw, v, route, kind, tmp)
+                            small = shrink(raw, v, route, kind, tmp, budget=2500 if big else 800)
                             with open(path, "wb") as fd:      # shrink used its own file; keep ours intact
                                 fd.write(raw)
                         if small != raw:
@@ -684,7 +971,7 @@ def run(ctx, model_ok):
                             sprobs = [p for p in sprobs if p[0] == kind] + [p for p in sprobs if p[0] != kind]
                             ctx.fail(kind, dict(desc, metafile_hex=small.hex(), shrunk_from_bytes=len(raw)),
                                      {p[0]: show(p[1]) for p in sprobs}, {"uri": suri, **{p[0]: show(p[2]) for p in sprobs}},
-                                     detail=f"metafile: {small!r}")
+                                     detail=f"metafile ({len(small)} bytes): {small[:3000]!r}" + (" ..." if len(small) > 3000 else ""))
                         else:
                             ctx.fail(kind, desc, {p[0]: show(p[1]) for p in probs}, {"uri": uri, **{p[0]: show(p[2]) for p in probs}},
                                      detail=f"metafile: {raw[:1500]!r}")
